@@ -15,7 +15,6 @@ Inductive sop :=
 Definition part := (cm * Z * value * Z)%type.   (* choices, log weight (ln 2 units), retval, score *)
 Record snap := { sn_parts : list part; sn_est : Q; sn_lml : Q }.
 
-Inductive smc_case := CSmc (ops : list sop) (snaps : list snap).
 
 Definition pow2 (k : Z) : Q := Qpower (2 # 1) k.
 
@@ -36,8 +35,13 @@ Definition incr_ok (target : gf) (args : value) (obsc : cm) (prop : option gf) (
       match prop with
       | None => Z.eqb dlw (total_on (cm_binds obsc) l)
       | Some q =>
+          (* the proposal may cover only some of the latent sites: the target is then generated under
+             observations + proposed values, its weight counts exactly those sites, the rest are drawn
+             from the target's own prior and cancel *)
           match gf_sites q c args with
-          | Ok (lq, _) => Z.eqb dlw (total l - total lq)
+          | Ok (lq, _) =>
+              let covered := fun pth => cm_binds obsc pth || existsb (fun e => path_eqb pth (fst e)) lq in
+              Z.eqb dlw (total_on covered l - total lq)
           | Err _ => false
           end
       end
@@ -105,8 +109,78 @@ Fixpoint stages (cur : option (gf * cm)) (argsl : list value) (prev : option sna
   | _, _ => false
   end.
 
+(** ** rejuvenation_smc (return_all_particles=True): one snapshot per time step, taken after
+    extend [+ resample when ESS < N // 2] [+ rejuvenation moves].  Between two snapshots either no
+    resampling happened — then every particle's weight increment is the generate / proposal
+    increment for its own previous return value, the estimate is unchanged and the effective
+    sample size of the new weights is not below N // 2 (otherwise the rule should have resampled) —
+    or it did: all weights are 0, every particle extends some previous particle, and
+    exp(lml) = estimate.  With an MCMC kernel the traces move after the weights are fixed, so
+    only coherence (each trace is a run of the model on some previous particle's return value and
+    holds the observations) and the weight bookkeeping that remains observable are judged. *)
+Definition ess_ok (ps : list part) (nfloor : Z) : bool :=
+  let ws := map (fun p : part => pow2 (lw p)) ps in
+  let s1 := fold_right Qplus 0%Q ws in
+  let s2 := fold_right Qplus 0%Q (map (fun w => w * w)%Q ws) in
+  (* ESS = s1^2 / s2 >= nfloor - 1/1000 *)
+  Qle_bool ((inject_Z nfloor - (1 # 1000)) * s2)%Q (s1 * s1)%Q.
+
+Definition coherent_with (g : gf) (obsc : cm) (al : list value) (p : part) : bool :=
+  let '(c, _, r, sc) := p in
+  cm_sub obsc c && existsb (fun a => coherent_obs g a (c, sc, r)) al.
+
+Definition auto_step (g : gf) (obsc : cm) (prop : option gf) (kernel : bool) (nfloor : Z)
+           (al_own : list value) (al_any : list value) (prev_lw : list Z) (prev_est : Q) (first : bool) (s : snap) : bool :=
+  let ps := sn_parts s in
+  lml_ok s &&
+  let resampled := forallb (fun p => Z.eqb (lw p) 0) ps && forallb (coherent_with g obsc al_any) ps
+                   && qrel_close (sn_lml s) (sn_est s) in
+  let plain :=
+      Nat.eqb (length ps) (length al_own) &&
+      (if kernel then
+         forallb (coherent_with g obsc al_any) ps
+       else
+         forallb (fun x => let '(p, (a, l0)) := x in incr_ok g a obsc prop p (lw p - l0))
+                 (combine ps (combine al_own prev_lw)))
+      && qrel_close (sn_est s) prev_est
+      && (if kernel then true else ess_ok ps nfloor) in
+  plain || resampled.
+
+Fixpoint auto_steps (g : gf) (prop : option gf) (kernel : bool) (nfloor : Z)
+         (prev : snap) (obss : list cm) (snaps : list snap) : bool :=
+  match obss, snaps with
+  | [], [] => true
+  | obsc :: obss', s :: snaps' =>
+      let al := map (fun p => VTup [pret p]) (sn_parts prev) in
+      auto_step g obsc prop kernel nfloor al al (map lw (sn_parts prev)) (sn_est prev) false s
+      && auto_steps g prop kernel nfloor s obss' snaps'
+  | _, _ => false
+  end.
+
+Inductive smc_case :=
+| CSmc (ops : list sop) (snaps : list snap)
+| CRsmc (target : gast) (args0 : value) (prop : option gast) (kernel : bool) (n : nat)
+        (obss : list cm) (snaps : list snap)
+| CFlagSmc (ok : bool).
+
 Definition check_smc (c : smc_case) : bool * bool * bool :=
-  match c with CSmc ops snaps => let ok := stages None [] None ops snaps in (ok, ok, ok) end.
+  match c with
+  | CSmc ops snaps => let ok := stages None [] None ops snaps in (ok, ok, ok)
+  | CRsmc tg args0 prop kernel n obss snaps =>
+      let g := compile tg in
+      let nfloor := (Z.of_nat n / 2)%Z in
+      let ok :=
+        match obss, snaps with
+        | obs0 :: obss', s0 :: snaps' =>
+            Nat.eqb (length (sn_parts s0)) n &&
+            auto_step g obs0 None kernel nfloor (map (fun _ => args0) (sn_parts s0)) [args0]
+                      (map (fun _ => 0%Z) (sn_parts s0)) 1%Q true s0
+            && auto_steps g (option_map compile prop) kernel nfloor s0 obss' snaps'
+        | _, _ => false
+        end in
+      (ok, ok, ok)
+  | CFlagSmc ok => (ok, ok, ok)
+  end.
 
 Definition smc_report (cs : list smc_case) : list (nat * bool * bool * bool) :=
   (fix go (i : nat) (cs : list smc_case) :=
